@@ -271,6 +271,9 @@ impl AllocVar<Element, Fq> for ElementVar {
                 //
                 // 1. Encode (out of circuit) to an Fq
                 let field_element = group_projective_point.vartime_compress_to_field();
+                // Verification hook: lets a harness substitute the witnessed encoding.
+                #[cfg(decaf377_verif)]
+                let field_element = crate::ark_curve::verif::witness_encoding_hint(field_element);
 
                 // 2. Witness the encoded value
                 let compressed_P_var = FqVar::new_witness(cs, || Ok(field_element))?;
